@@ -45,7 +45,7 @@ RULE = ("generated stack shapes of depth 1-6: each position a recorder layer cla
         "transfer in each direction and one event per case with emitter = any layer, any group member or the stack object, "
         "direction emit/broadcast, detached or not. Enumerated: the 16 flag combinations of getDefaultLayers/getProtocolLayers and "
         "the 64 combinations of getDefaultStack (32 flag combinations x extra top layer), and 256 pairs of default stacks assembled one "
-        "after the other (16 x 16 flag combinations, through getDefaultStack / getDefaultLayers / the builder) with an event sent up "
+        "after the other (16 x 16 flag combinations, through getDefaultStack / getDefaultLayers / the builder) with a property set on each, an event sent up "
         "and one broadcast down in each of the two afterwards. Non-trivial = a group of >= 2 members "
         "with the emitter or a consumer not at an end of the stack, or a detached event; helper combinations are non-trivial "
         "when not all-default. Distinct = distinct canonical JSON.")
@@ -535,6 +535,15 @@ def _two_stacks(case, out):
             net = layers[0]
             orig = net.onEvent
             net.onEvent = (lambda ev, _r=rec, _o=orig: (_r.append(ev.getName()), _o(ev))[1])
+        # each stack has its own properties: what one stack (or a layer of it) sets is not seen by the other
+        a.setProp("org.verif.prop", "first")
+        if b.getProp("org.verif.prop") is not None or _layers_of(b)[2].getProp("org.verif.prop") is not None:
+            out.fail("helpers", "helpers:two_stacks:property_set_on_one_stack_visible_in_the_other", {"value": repr(b.getProp("org.verif.prop"))})
+            return out
+        _layers_of(b)[3].setProp("org.verif.prop2", "second")
+        if a.getProp("org.verif.prop2") is not None or a.getProp("org.verif.prop") != "first":
+            out.fail("helpers", "helpers:two_stacks:property_set_on_one_stack_visible_in_the_other", {"value": repr(a.getProp("org.verif.prop2"))})
+            return out
         for name, stk in stacks.items():
             other = "second" if name == "first" else "first"
             top, otop = _layers_of(stk)[-1], _layers_of(stacks[other])[-1]
